@@ -49,6 +49,7 @@ pub ghost struct NodeSt {
     pub number_facts_rules: int,
     pub operator_tail: Option<Operator>,
     pub ss: SubstitutionSet<'static>,
+    pub parent: Option<int>,
     // ghost: distance from the base node of the query (a node's children are one deeper)
     pub depth: nat,
     // ghost: depth of the call this node belongs to - the nearest complex-goal node at or above it (a complex-goal node
@@ -56,6 +57,8 @@ pub ghost struct NodeSt {
     pub call_depth: nat,
     // ghost history: next_solution() on this node has returned None ("no (more) solution") at least once
     pub done: bool,
+    // ghost history: a cut has run in the subtree of this node (the node was on the parent chain of a cut)
+    pub on_chain: bool,
 }
 
 pub tracked struct Heap {
@@ -109,8 +112,15 @@ pub open spec fn wf_node_body(h: Heap, n: int) -> bool {
     &&& (s.goal is OperatorGoal ==> s.head_sn is Some)
     &&& 0 <= s.rule_index && 0 <= s.number_facts_rules <= usize::MAX
     &&& s.call_depth <= s.depth && (s.goal is ComplexGoal ==> s.call_depth == s.depth)
-    // the cut disables backtracking on a node together with its head node (the goals to the left of the cut)
-    &&& (s.no_backtracking ==> opt_flagged(h, s.head_sn))
+    // the cut disables backtracking on the nodes of its parent chain, each together with its head node (the goals to the left)
+    &&& (s.on_chain ==> s.no_backtracking && opt_flagged(h, s.head_sn))
+    &&& parent_ok(h, n)
+}
+// parent_node links stay within the call: a complex-goal node has none (make_solution_node), the others point one level up
+pub open spec fn parent_ok(h: Heap, n: int) -> bool {
+    let s = h.st[n];
+    &&& (s.goal is ComplexGoal ==> s.parent is None)
+    &&& match s.parent { Some(p) => alive(h, p) && h.st[p].depth + 1 == s.depth && h.st[p].call_depth == s.call_depth, None => true }
 }
 
 // Under the quantifier of the invariant the two predicates are opaque: unfolded there, every node's well-formedness would
@@ -139,7 +149,7 @@ pub open spec fn above(h: Heap, n: int) -> bool {
 
 // all fields but the cut flag
 pub open spec fn same_but_flag(a: NodeSt, b: NodeSt) -> bool {
-    b == NodeSt { no_backtracking: b.no_backtracking, ..a }
+    b == NodeSt { no_backtracking: b.no_backtracking, on_chain: b.on_chain, ..a }
 }
 
 // how the heap may change while a function works on nodes; l = the nodes whose RefMut is held by callers
@@ -147,6 +157,7 @@ pub open spec fn ev(h: Heap, h2: Heap, l: Set<int>) -> bool {
     &&& h.out <= h2.out
     &&& forall|m: int| #[trigger] alive(h, m) ==> alive(h2, m)
             && h2.st[m].goal == h.st[m].goal && h2.st[m].depth == h.st[m].depth && h2.st[m].call_depth == h.st[m].call_depth
+            && h2.st[m].parent == h.st[m].parent && (h.st[m].on_chain ==> h2.st[m].on_chain)
             && (h.st[m].done ==> h2.st[m].done)
             && (h.st[m].no_backtracking ==> h2.st[m].no_backtracking)
             && (l.contains(m) ==> same_but_flag(h.st[m], h2.st[m]))
@@ -165,6 +176,7 @@ pub proof fn lemma_ev_trans(a: Heap, b: Heap, c: Heap, l: Set<int>, l2: Set<int>
 {
     assert forall|m: int| #[trigger] alive(a, m) implies alive(c, m)
             && c.st[m].goal == a.st[m].goal && c.st[m].depth == a.st[m].depth && c.st[m].call_depth == a.st[m].call_depth
+            && c.st[m].parent == a.st[m].parent && (a.st[m].on_chain ==> c.st[m].on_chain)
             && (a.st[m].done ==> c.st[m].done)
             && (a.st[m].no_backtracking ==> c.st[m].no_backtracking)
             && (l.contains(m) ==> same_but_flag(a.st[m], c.st[m])) by {
@@ -317,7 +329,7 @@ pub open spec fn state_of<'a>(x: SolutionNode<'a>, d: nat, cd: nat) -> NodeSt {
         goal: *x.goal, no_backtracking: x.no_backtracking, more_solutions: x.more_solutions,
         child: link_of(x.child), head_sn: link_of(x.head_sn), tail_sn: link_of(x.tail_sn),
         rule_index: x.rule_index as int, number_facts_rules: x.number_facts_rules as int,
-        operator_tail: x.operator_tail, ss: *x.ss, depth: d, call_depth: cd, done: false,
+        operator_tail: x.operator_tail, ss: *x.ss, parent: link_of(x.parent_node), depth: d, call_depth: cd, done: false, on_chain: false,
     }
 }
 #[verifier::external_body]
@@ -336,7 +348,8 @@ pub open spec fn wf_partial(h: Heap, n: int) -> bool {
     &&& opt_kid(h, n, s.child) && opt_kid(h, n, s.head_sn) && opt_kid(h, n, s.tail_sn)
     &&& 0 <= s.rule_index && 0 <= s.number_facts_rules <= usize::MAX
     &&& s.call_depth <= s.depth && (s.goal is ComplexGoal ==> s.call_depth == s.depth)
-    &&& !s.no_backtracking && !s.done
+    &&& !s.no_backtracking && !s.done && !s.on_chain
+    &&& parent_ok(h, n)
 }
 pub open spec fn inv_but(h: Heap, u: Set<int>) -> bool {
     forall|n: int| #[trigger] alive(h, n) ==>
@@ -375,7 +388,7 @@ pub proof fn lemma_complete_but(h1: Heap, h2: Heap, r: int, u: Set<int>)
     requires inv_but(h1, u.insert(r)), alive(h1, r), !u.contains(r),
              h2.st == h1.st.insert(r, h2.st[r]), wf_node_body(h2, r), !h2.st[r].done,
              h2.st[r].depth == h1.st[r].depth, h2.st[r].call_depth == h1.st[r].call_depth, h2.st[r].goal == h1.st[r].goal,
-             h2.st[r].no_backtracking == h1.st[r].no_backtracking,
+             h2.st[r].no_backtracking == h1.st[r].no_backtracking, h2.st[r].parent == h1.st[r].parent, h2.st[r].on_chain == h1.st[r].on_chain,
     ensures inv_but(h2, u),
 {
     reveal(wf_node); reveal(local_done);
@@ -459,6 +472,7 @@ pub open spec fn wrote(h1: Heap, h2: Heap, me: int) -> bool {
     &&& h2.st.dom() =~= h1.st.dom() && h2.locked == h1.locked && h2.out == h1.out
     &&& forall|m: int| m != me ==> h2.st[m] == h1.st[m]
     &&& h2.st[me].goal == h1.st[me].goal && h2.st[me].depth == h1.st[me].depth && h2.st[me].call_depth == h1.st[me].call_depth
+    &&& h2.st[me].parent == h1.st[me].parent && h2.st[me].on_chain == h1.st[me].on_chain
     &&& h2.st[me].done == h1.st[me].done && h2.st[me].no_backtracking == h1.st[me].no_backtracking
 }
 pub proof fn lemma_after_write(h0: Heap, h1: Heap, h2: Heap, me: int)
@@ -484,6 +498,7 @@ pub proof fn lemma_after_write(h0: Heap, h1: Heap, h2: Heap, me: int)
     }
     assert forall|m: int| #[trigger] alive(h0, m) implies alive(h2, m)
             && h2.st[m].goal == h0.st[m].goal && h2.st[m].depth == h0.st[m].depth && h2.st[m].call_depth == h0.st[m].call_depth
+            && h2.st[m].parent == h0.st[m].parent && (h0.st[m].on_chain ==> h2.st[m].on_chain)
             && (h0.st[m].done ==> h2.st[m].done)
             && (h0.st[m].no_backtracking ==> h2.st[m].no_backtracking)
             && (h0.locked.contains(m) ==> same_but_flag(h0.st[m], h2.st[m])) by {
@@ -558,6 +573,7 @@ pub proof fn lemma_finish(h0: Heap, h1: Heap, h2: Heap, me: int, mark: bool)
     if mark { lemma_mark(hm, h2, me); } else { lemma_inv_same_st(h1, h2); }
     assert forall|m: int| #[trigger] alive(h0, m) implies alive(h2, m)
             && h2.st[m].goal == h0.st[m].goal && h2.st[m].depth == h0.st[m].depth && h2.st[m].call_depth == h0.st[m].call_depth
+            && h2.st[m].parent == h0.st[m].parent && (h0.st[m].on_chain ==> h2.st[m].on_chain)
             && (h0.st[m].done ==> h2.st[m].done)
             && (h0.st[m].no_backtracking ==> h2.st[m].no_backtracking)
             && (h0.locked.contains(m) ==> same_but_flag(h0.st[m], h2.st[m])) by {
@@ -575,6 +591,7 @@ pub proof fn lemma_finish_unlocked(h0: Heap, h1: Heap, h2: Heap, me: int, mark: 
     if mark { lemma_mark(h1, h2, me); } else { lemma_inv_same_st(h1, h2); }
     assert forall|m: int| #[trigger] alive(h0, m) implies alive(h2, m)
             && h2.st[m].goal == h0.st[m].goal && h2.st[m].depth == h0.st[m].depth && h2.st[m].call_depth == h0.st[m].call_depth
+            && h2.st[m].parent == h0.st[m].parent && (h0.st[m].on_chain ==> h2.st[m].on_chain)
             && (h0.st[m].done ==> h2.st[m].done)
             && (h0.st[m].no_backtracking ==> h2.st[m].no_backtracking)
             && (h0.locked.contains(m) ==> same_but_flag(h0.st[m], h2.st[m])) by {
@@ -591,6 +608,7 @@ pub proof fn lemma_after_alloc(h0: Heap, h1: Heap, h2: Heap, me: int)
     lemma_unfold_me(h2, me);
     assert forall|m: int| #[trigger] alive(h0, m) implies alive(h2, m)
             && h2.st[m].goal == h0.st[m].goal && h2.st[m].depth == h0.st[m].depth && h2.st[m].call_depth == h0.st[m].call_depth
+            && h2.st[m].parent == h0.st[m].parent && (h0.st[m].on_chain ==> h2.st[m].on_chain)
             && (h0.st[m].done ==> h2.st[m].done)
             && (h0.st[m].no_backtracking ==> h2.st[m].no_backtracking)
             && (h0.locked.contains(m) ==> same_but_flag(h0.st[m], h2.st[m])) by {
@@ -606,6 +624,7 @@ pub proof fn lemma_after_out(h0: Heap, h1: Heap, h2: Heap, me: int)
     lemma_unfold_me(h2, me);
     assert forall|m: int| #[trigger] alive(h0, m) implies alive(h2, m)
             && h2.st[m].goal == h0.st[m].goal && h2.st[m].depth == h0.st[m].depth && h2.st[m].call_depth == h0.st[m].call_depth
+            && h2.st[m].parent == h0.st[m].parent && (h0.st[m].on_chain ==> h2.st[m].on_chain)
             && (h0.st[m].done ==> h2.st[m].done)
             && (h0.st[m].no_backtracking ==> h2.st[m].no_backtracking)
             && (h0.locked.contains(m) ==> same_but_flag(h0.st[m], h2.st[m])) by {
@@ -636,5 +655,146 @@ pub proof fn lemma_locked_alive(h0: Heap, h: Heap, me: int)
 {
     assert forall|m: int| h.locked.contains(m) implies h.st.dom().contains(m) by {
         if m != me { assert(h0.locked.contains(m)); assert(alive(h0, m)); assert(alive(h, m)); }
+    }
+}
+
+// ---- the cut: SolutionNode::set_no_backtracking() ----------------------------------------------------------------------
+// a is n or one of the nodes reached from n through parent links
+pub open spec fn up(h: Heap, n: int, a: int) -> bool
+    decreases h.st[n].depth,
+{
+    a == n || match h.st[n].parent {
+        Some(p) => alive(h, p) && h.st[p].depth < h.st[n].depth && up(h, p, a),
+        None => false,
+    }
+}
+pub open spec fn head_of_up(h: Heap, n: int, m: int) -> bool {
+    exists|a: int| alive(h, a) && #[trigger] up(h, n, a) && h.st[a].head_sn == Some(m)
+}
+// ASSUMED (T8, unsafe code): what the raw-pointer walk of set_no_backtracking() does, started on node n -
+// the flag is set on n and on every node up the parent_node links, and on the head node of each of these; nothing else changes.
+// (`on_chain` is the ghost record of "was on the walk".)  Checked on the real function by a bounded Kani harness.
+pub open spec fn walked(h: Heap, h2: Heap, n: int) -> bool {
+    &&& h2.st.dom() =~= h.st.dom() && h2.locked == h.locked && h2.out == h.out
+    &&& forall|m: int| #[trigger] alive(h, m) ==> h2.st[m] == NodeSt {
+            no_backtracking: h.st[m].no_backtracking || up(h, n, m) || head_of_up(h, n, m),
+            on_chain: h.st[m].on_chain || up(h, n, m),
+            ..h.st[m]
+        }
+}
+// R15e  `sn_ref.set_no_backtracking()` (a method of the node, reached through the RefMut)
+#[verifier::external_body]
+pub fn nd_call_set_no_backtracking<'a>(n: &Rc<RefCell<SolutionNode<'a>>>, Tracked(h): Tracked<&mut Heap>)
+    requires held(*old(h), nid(*n)),
+    ensures walked(*old(h), *final(h), nid(*n)),
+{ unimplemented!() }
+
+// the walk stays inside the call: every node on it has the call depth of n and lies at or below that depth
+pub proof fn lemma_up_in_call(h: Heap, n: int, a: int)
+    requires inv(h), alive(h, n), up(h, n, a),
+    ensures alive(h, a), h.st[a].call_depth == h.st[n].call_depth, h.st[a].call_depth <= h.st[a].depth,
+    decreases h.st[n].depth,
+{
+    reveal(wf_node);
+    assert(wf_node(h, n));
+    if a != n {
+        let p = h.st[n].parent->0;
+        assert(alive(h, p));
+        lemma_up_in_call(h, p, a);
+    }
+}
+pub proof fn lemma_walk(h: Heap, h2: Heap, n: int)
+    requires inv(h), alive(h, n), walked(h, h2, n),
+    ensures inv(h2), flags_kept_above(h, h2, h.st[n].call_depth),
+            forall|l: Set<int>| #[trigger] ev(h, h2, l),
+            h2.st[n].no_backtracking,
+{
+    reveal(wf_node); reveal(local_done);
+    assert forall|m: int| #[trigger] alive(h2, m) implies wf_node(h2, m) && (h2.st[m].done ==> local_done(h2, m)) by {
+        assert(alive(h, m));
+        assert(wf_node(h, m));
+        let s = h.st[m];
+        assert(forall|c: int| is_done(h, c) == is_done(h2, c)) by {
+            assert forall|c: int| is_done(h, c) == is_done(h2, c) by { if alive(h, c) {} }
+        }
+        assert(forall|o: Option<int>| opt_done(h, o) == #[trigger] opt_done(h2, o));
+        assert forall|o: Option<int>| opt_kid(h, m, o) implies #[trigger] opt_kid(h2, m, o) by {
+            match o { Some(c) => { assert(alive(h, c)); }, None => {} }
+        }
+        assert forall|o: Option<int>| opt_flagged(h, o) implies #[trigger] opt_flagged(h2, o) by {
+            match o { Some(c) => { assert(alive(h, c)); }, None => {} }
+        }
+        if h2.st[m].on_chain {
+            match s.head_sn {
+                Some(x) => {
+                    assert(alive(h, x));
+                    if !s.on_chain { assert(up(h, n, m)); assert(head_of_up(h, n, x)); }
+                },
+                None => {},
+            }
+        }
+        match s.parent { Some(p) => { assert(alive(h, p)); }, None => {} }
+        if h2.st[m].done { assert(local_done(h, m)); }
+    }
+    assert forall|m: int| #[trigger] alive(h, m) && h.st[m].depth < h.st[n].call_depth
+        implies alive(h2, m) && h2.st[m].no_backtracking == h.st[m].no_backtracking by {
+        if up(h, n, m) { lemma_up_in_call(h, n, m); }
+        if head_of_up(h, n, m) {
+            let a = choose|a: int| alive(h, a) && #[trigger] up(h, n, a) && h.st[a].head_sn == Some(m);
+            lemma_up_in_call(h, n, a);
+            assert(wf_node(h, a));
+        }
+    }
+    assert forall|l: Set<int>| #[trigger] ev(h, h2, l) by {
+        assert forall|m: int| #[trigger] alive(h, m) implies alive(h2, m)
+            && h2.st[m].goal == h.st[m].goal && h2.st[m].depth == h.st[m].depth && h2.st[m].call_depth == h.st[m].call_depth
+            && h2.st[m].parent == h.st[m].parent && (h.st[m].on_chain ==> h2.st[m].on_chain)
+            && (h.st[m].done ==> h2.st[m].done)
+            && (h.st[m].no_backtracking ==> h2.st[m].no_backtracking)
+            && (l.contains(m) ==> same_but_flag(h.st[m], h2.st[m])) by {}
+    }
+    assert(up(h, n, n));
+}
+
+// R16  print!(..): one output event
+#[verifier::external_body]
+pub fn verif_print(Tracked(h): Tracked<&mut Heap>)
+    ensures final(h).st == old(h).st, final(h).locked == old(h).locked, final(h).out == old(h).out + 1,
+{ unimplemented!() }
+// R2d  panic!(..) in a function whose claims are about calls that return
+#[verifier::external_body]
+pub fn verif_diverge() -> !
+{ unimplemented!() }
+// R10 target for `&terms[i]`: std panics when i is out of range
+#[verifier::external_body]
+pub fn vec_at<T>(v: &Vec<T>, i: usize) -> (r: &T)
+    ensures i < v@.len(), *r == v@[i as int],
+{ unimplemented!() }
+// after the walk of a cut started on me
+pub proof fn lemma_after_walk(h0: Heap, h1: Heap, h2: Heap, me: int)
+    requires working(h0, h1, me), walked(h1, h2, me), inv(h2), forall|l: Set<int>| #[trigger] ev(h1, h2, l),
+             flags_kept_above(h0, h1, h0.st[me].call_depth), flags_kept_above(h1, h2, h1.st[me].call_depth),
+    ensures working(h0, h2, me), flags_kept_above(h0, h2, h0.st[me].call_depth),
+{
+    assert(alive(h1, me));
+    assert(ev(h1, h2, h0.locked));
+    lemma_ev_trans(h0, h1, h2, h0.locked, h0.locked);
+    lemma_unfold_me(h2, me);
+    assert forall|m: int| #[trigger] alive(h0, m) && h0.st[m].depth < h0.st[me].call_depth
+        implies alive(h2, m) && h2.st[m].no_backtracking == h0.st[m].no_backtracking by {
+        assert(alive(h1, m));
+    }
+}
+pub open spec fn is_cut(b: BuiltInPredicate) -> bool { b.functor@ =~= seq!['!'] }
+pub proof fn lemma_up_same(h: Heap, h2: Heap, n: int, a: int)
+    requires up(h, n, a), alive(h, n),
+             forall|m: int| #[trigger] alive(h, m) ==> alive(h2, m) && h2.st[m].parent == h.st[m].parent && h2.st[m].depth == h.st[m].depth,
+    ensures up(h2, n, a),
+    decreases h.st[n].depth,
+{
+    if a != n {
+        let p = h.st[n].parent->0;
+        assert(alive(h, p));
+        lemma_up_same(h, h2, p, a);
     }
 }
